@@ -108,10 +108,18 @@ func NewPMT(pmtBytes []byte) (PMT, error) {
 }
 
 func (p *pmt) parseTables(pmtBytes []byte) error {
-	sectionBytes := pmtBytes[1+PointerField(pmtBytes):]
+	start := 1 + int(PointerField(pmtBytes))
+	if start > len(pmtBytes) {
+		return gots.ErrPMTParse
+	}
+	sectionBytes := pmtBytes[start:]
 
 	for len(sectionBytes) > 2 && sectionBytes[0] != 0xFF {
 		tableLength := sectionLength(sectionBytes)
+		if len(sectionBytes) < 3+int(tableLength) {
+			// the section announces more bytes than are present
+			return gots.ErrPMTParse
+		}
 
 		if tableID(sectionBytes) == 0x2 {
 			err := p.parsePMTSection(sectionBytes[0 : 3+tableLength])
@@ -267,6 +275,9 @@ func ExtractCRC(payload []byte) (uint32, error) {
 	}
 
 	end := PSIHeaderLen + sectionLength
+	if end < 4 || int(end) > len(payload) {
+		return 0, gots.ErrPMTParse
+	}
 
 	// The CRC is the last 4-bytes of the PSI Table.
 	data := payload[end-4 : end]
@@ -309,7 +320,10 @@ func FilterPMTPacketsToPids(packets []*packet.Packet, pids []int) ([]*packet.Pac
 	pmtPayload := pmtByteBuffer.Bytes()
 
 	// Determine if any of the given PIDs aren't in the PMT.
-	unfilteredPMT, _ := NewPMT(pmtPayload)
+	unfilteredPMT, err := NewPMT(pmtPayload)
+	if err != nil {
+		return nil, err
+	}
 
 	pmtPid := packet.Pid(packets[0])
 	var missingPids []int
